@@ -340,8 +340,8 @@ var SharedThesNames = true
 var ThesNames = []string{"syn1", "syn2", "thesaurus"}
 var SynVocab = []string{"happy", "glad", "joyful", "big", "large", "huge", "b", "cat", "日本", "x"}
 
-// AddSynDocs mixes synonym documents into a batch (W6: >= 1 synonym per definition, non-empty strings,
-// thesaurus names distinct from ordinary field names).
+// AddSynDocs mixes synonym documents into a batch (W6: >= 1 synonym per definition, non-empty strings;
+// a thesaurus may be named like an ordinary field, see SharedThesNames).
 func AddSynDocs(r *Rng, b Batch, idbase string) Batch {
 	nth := 1 + r.Intn(len(ThesNames))
 	n := 1 + r.Intn(4)
